@@ -209,6 +209,18 @@ def step (st : St) (j : Json) : St × List String :=
   | "apidecrypt" =>
     let m := if jStr j "msg" == "jwe" then JweMsg.jwe (jStr j "hkid") (jNat j "encFor") else JweMsg.garbage
     (st, ["apidecrypt " ++ showApi (apiDecryptJwe validStr apiCfg "$KEYDIR" s (parseApiReq j) m)])
+  | "dpopseq" =>
+    -- the same dpop.DPoP signed for several kids; `preset` = a jwk header the caller put on the token before
+    let h0 : Headers := if jStr j "preset" == "" then [("typ", .str "dpop+jwt")] else [("typ", .str "dpop+jwt"), ("jwk", .jwk (jStr j "presetRaw") (jStr j "preset"))]
+    let rs := signDPoPSeq validStr s h0 (jStrs j "kids")
+    let showOne (p : String × KRes (Nat × Headers)) : String :=
+      kresT s (.sign "dpop" p.1 "" "") p.2 (fun (k, hdr) =>
+        let jwk := match hget hdr "jwk" with
+          | some (.jwk "public" id) => id ++ " secret=0"
+          | some (.jwk rt id) => "preset:" ++ id ++ (if secretTypes.contains rt then " secret=1" else " secret=0")
+          | _ => "- secret=0"
+        s!" verifies=[K{k}] jwk={jwk}")
+    (st, ["dpopseq " ++ String.intercalate " | " (rs.map showOne) ++ showAudit []])   -- SignDPoP writes no audit record
   | "apiencval" => (st, ["apiencval " ++ showApi (apiEncryptValidate apiCfg (parseApiReq j))])
   | o => (st, ["bad-op:" ++ o])
 
